@@ -15,7 +15,7 @@ import quad_common as Q
 INF = float("inf")
 KEY_F4 = "F4-noisy-average-curve-premature-convergence-zero-inside-range"
 KEY_F5 = "F5-noisy-point-mass-average-never-returns"
-MODEL_CAP = 16          # the model follows the loop for at most 2^16 integrand evaluations per curve
+MODEL_CAP = 15          # the model follows the loop for at most 2^15 integrand evaluations per curve
 
 
 def mp_level(q, n, minimize):
@@ -98,7 +98,7 @@ def noiseless_part(rep, rng, drv, QD, n_cases, replay):
         if not (np.array_equal(qt_n, qt_d) and np.array_equal(av_n, av_d)):
             rep.violate(what="minimize=None is not minimize=self.convex", input=inp, call="QuadraticDistribution.quantile_tuning_curve")
         # model vs implementation
-        for kind, impl, r, rel in (("qtc", qt, replies[2 * ci], 1e-12), ("avg", av, replies[2 * ci + 1], 1e-10)):
+        for kind, impl, r, rel in (("qtc", qt, replies[2 * ci], 1e-12), ("avg", av, replies[2 * ci + 1], 1e-11)):
             if r is None:
                 rep.disagree(op="quad." + kind, note="model rejected an input of the property's domain", input=inp)
                 continue
@@ -415,7 +415,7 @@ def run(seed, tier, replay=None):
         if rp_n is not None and rp_n["a"] == rp_n["b"]:
             point_mass_part(rep, rng, drv, NQ)
         else:
-            noisy_average_part(rep, rng, drv, NQ, switches, 30 if quick else 400, rp_n)
+            noisy_average_part(rep, rng, drv, NQ, switches, 26 if quick else 400, rp_n)
     if replay is None:
         point_mass_part(rep, rng, drv, NQ)
     return rep.result(
